@@ -265,10 +265,16 @@ Definition convert_to_range (o : popts) (args : list av) (size : Z) : conv :=
 Definition pres := option (str * Z * Z * bool).
 Definition pav_t := popts -> list av -> Z -> option av -> pres.
 
+(* printing an array that is an element of an array or the value of a
+   repetition: (options, slots, cols_used, the character in front is a blank) *)
+Definition parr_t := popts -> list av -> Z -> bool -> pres.
+
 (* the loop over the elements of an array; acc does not contain the pending
-   separator; first = last_sep still is buffer-1 (in front of the bracket) *)
-Fixpoint print_array_loop (pav : pav_t) (fuel : nat) (o : popts) (elems : list av) (prev : option av)
-         (i n : Z) (acc : str) (first : bool) (bb : bool) (wrt cols awtl : Z) : pres :=
+   separator; first = last_sep still is buffer-1 (in front of the bracket).
+   An element that is an array may put its line break over the separator in
+   front of it (its text then starts with the four blanks). *)
+Fixpoint print_array_loop (pav : pav_t) (parr : parr_t) (fuel : nat) (o : popts) (elems : list av)
+         (prev : option av) (i n : Z) (acc : str) (first : bool) (bb : bool) (wrt cols awtl : Z) : pres :=
   match fuel with
   | O => None
   | S f =>
@@ -277,28 +283,29 @@ Fixpoint print_array_loop (pav : pav_t) (fuel : nat) (o : popts) (elems : list a
       | CUnmod => None
       | cv =>
           let input := match cv with CYes c _ => c | _ => elems end in
-          match hd_type elems =? 97, pav o input cols prev with
-          | false, Some (t, tmp, cols1, false) =>
+          match (if hd_type input =? 97 then parr o input cols (negb first) else pav o input cols prev) with
+          | Some (t, tmp, cols1, bbi) =>
+              if bbi && first then None else
               let '(brk_, cols2, awtl2) := lb_check (linelength o) cols1 tmp awtl in
               let inc := match cv with CYes _ k => k | _ => next_arg_offset elems end in
               let prev2 := nth_error elems (Z.to_nat (inc - 1)) in
               let acc2 := if first then (if brk_ then [32; 32; 32; 32] ++ acc ++ t else acc ++ t)
-                          else acc ++ (if brk_ then nl4 else [32]) ++ t in
-              print_array_loop pav f o (skipz inc elems) prev2 (i + inc) n acc2 false
+                          else acc ++ (if brk_ then nl4 else if bbi then [10] else [32]) ++ t in
+              print_array_loop pav parr f o (skipz inc elems) prev2 (i + inc) n acc2 false
                                (bb || (first && brk_)) (wrt + tmp + (if brk_ then 4 else 0) + 1)
                                (cols2 + 1) awtl2
-          | _, _ => None
+          | None => None
           end
       end
   end.
 
 (* blank: the character in front of the bracket is a blank (a line break may
    replace it) *)
-Definition print_array (pav : pav_t) (o : popts) (arg : list av) (cols : Z) (blank : bool) : pres :=
+Definition print_array (pav : pav_t) (parr : parr_t) (o : popts) (arg : list av) (cols : Z) (blank : bool) : pres :=
   match arg with
   | VArr _ n :: elems =>
       if n =? 0 then Some ([91; 93], 2, cols + 3, false) else
-      match print_array_loop pav (S (length elems)) o elems None 1 n [91] true false 1 (cols + 1)
+      match print_array_loop pav parr (S (length elems)) o elems None 1 n [91] true false 1 (cols + 1)
                              (if (cols =? 0) || negb blank then 0 else 1) with
       | Some (t, w, c, bb) => Some (t ++ [93], w, c + 1, bb)
       | None => None
@@ -307,7 +314,7 @@ Definition print_array (pav : pav_t) (o : popts) (arg : list av) (cols : Z) (bla
   end.
 
 (* rtosc_print_range for a compressed, finite range *)
-Definition print_range (pav : pav_t) (o : popts) (arg : list av) (cols : Z) (prev : option av) : pres :=
+Definition print_range (pav : pav_t) (parr : parr_t) (o : popts) (arg : list av) (cols : Z) (prev : option av) : pres :=
   match arg with
   | VRep num hd :: rest =>
       if negb (compress o) || (num =? 0) then None else
@@ -349,7 +356,7 @@ Definition print_range (pav : pav_t) (o : popts) (arg : list av) (cols : Z) (pre
       else
         let head := print_d num ++ [120] in
         match (match rest with
-               | VArr _ _ :: _ => print_array pav o rest (cols + len head) false   (* after the x *)
+               | VArr _ _ :: _ => parr o rest (cols + len head) false   (* after the x *)
                | _ => pav o rest (cols + len head) None end) with
         | Some (t, w, c, bb) =>
             Some ((if bb then removelast head ++ [10] else head) ++ t, len head + w, c, false)
@@ -358,24 +365,31 @@ Definition print_range (pav : pav_t) (o : popts) (arg : list av) (cols : Z) (pre
   end.
 
 (* rtosc_print_arg_val on the slot sequence starting at the argument *)
-Fixpoint print_arg_val_f (fuel : nat) (o : popts) (args : list av) (cols : Z) (prev : option av) : pres :=
+Fixpoint print_arg_val_f (fuel : nat) (o : popts) (args : list av) (cols : Z) (prev : option av)
+         {struct fuel} : pres :=
   match fuel with
   | O => None
   | S f =>
       match args with
-      | VRep _ _ :: _ => print_range (print_arg_val_f f) o args cols prev
-      | VArr _ _ :: _ => print_array (print_arg_val_f f) o args cols false
+      | VRep _ _ :: _ => print_range (print_arg_val_f f) (print_arr_f f) o args cols prev
+      | VArr _ _ :: _ => print_array (print_arg_val_f f) (print_arr_f f) o args cols false
       | v :: _ => match print_scalar o v cols with
                   | Some (t, w, c) => Some (t, w, c, false)
                   | None => None end
       | [] => None
       end
+  end
+with print_arr_f (fuel : nat) (o : popts) (args : list av) (cols : Z) (blank : bool) {struct fuel} : pres :=
+  match fuel with
+  | O => None
+  | S f => print_array (print_arg_val_f f) (print_arr_f f) o args cols blank
   end.
 Definition print_arg_val := print_arg_val_f 6.
+Definition print_arr := print_arr_f 6.
 (* a value of the top-level list: blank = a separator has been written in front *)
 Definition print_arg_val_top (o : popts) (args : list av) (cols : Z) (prev : option av) (blank : bool) : pres :=
   match args with
-  | VArr _ _ :: _ => print_array (print_arg_val_f 5) o args cols blank
+  | VArr _ _ :: _ => print_array print_arg_val print_arr o args cols blank
   | _ => print_arg_val o args cols prev
   end.
 
